@@ -126,6 +126,9 @@ func GetBreakpoint(node any) (int, error) {
 			if ppl.LineFormat != nil {
 				return i, nil
 			}
+			if ppl.LabelFormat != nil {
+				return i, nil
+			}
 		}
 		return BreakpointNo, nil
 	}
